@@ -67,19 +67,21 @@ UNIT = {
             'src': {'kind': 'slice', 'name': 'report_parse_errors',
                     'in': {'file': 'crates/emmylua_code_analysis/src/diagnostic/checker/syntax_error.rs', 'kind': 'fn',
                            'impl': 'Checker for SyntaxErrorChecker', 'name': 'check'},
-                    'from': r'for parse_error in parse_errors \{', 'to': r'context\.add_diagnostic\(code, parse_error\.range, parse_error\.message, None\);\s*\}',
-                    'head': 'pub fn report_parse_errors(context: &mut DiagnosticContext, parse_errors: Vec<LuaParseError>)', 'tail': ''},
+                    # from the first statement of `check` (an early return inserted in front of the loop is inside the slice)
+                    # to the end of the `if let Some(parse_errors) = …` block
+                    'from': 'BODY_START', 'to': r'context\.add_diagnostic\(code, parse_error\.range, parse_error\.message, None\);\s*\}\s*\}',
+                    'head': 'pub fn report_parse_errors(context: &mut DiagnosticContext, semantic_model: &SemanticModel)', 'tail': ''},
             'requires': 'key_model_ok()',
             'ensures': '''
             final(context).file_id == old(context).file_id && final(context).db == old(context).db && final(context).config == old(context).config,
-            final(context).diagnostics@.len() <= old(context).diagnostics@.len() + parse_errors@.len(),
+            final(context).diagnostics@.len() <= old(context).diagnostics@.len() + sp_parse_errors(semantic_model).len(),
             // every parse error of the file appears as a diagnostic at its location unless its code is disabled or suppressed there
-            forall|i: int| 0 <= i < parse_errors@.len()
-                && must_report(old(context), parse_error_code(parse_errors@[i].kind))
-                && !sp_range_suppressed(sp_diag_index(old(context).db), old(context).file_id, parse_error_code(parse_errors@[i].kind), parse_errors@[i].range)
+            forall|i: int| 0 <= i < sp_parse_errors(semantic_model).len()
+                && must_report(old(context), parse_error_code(sp_parse_errors(semantic_model)[i].kind))
+                && !sp_range_suppressed(sp_diag_index(old(context).db), old(context).file_id, parse_error_code(sp_parse_errors(semantic_model)[i].kind), sp_parse_errors(semantic_model)[i].range)
                 ==> exists|j: int| old(context).diagnostics@.len() <= j < final(context).diagnostics@.len()
                     && reports(old(context).db, old(context).file_id, #[trigger] final(context).diagnostics@[j],
-                               parse_error_code(parse_errors@[i].kind), parse_errors@[i].range, parse_errors@[i].message) /*@C21.syntax-errors-all-reported*/''',
+                               parse_error_code(sp_parse_errors(semantic_model)[i].kind), sp_parse_errors(semantic_model)[i].range, sp_parse_errors(semantic_model)[i].message) /*@C21.syntax-errors-all-reported*/''',
             'proof': [
                 (r'context\.add_diagnostic\(code, parse_error\.range, parse_error\.message, None\);', 'before',
                  '''let ghost pre = context.diagnostics@;
@@ -116,7 +118,7 @@ UNIT = {
             ],
             'iter_names': {0: 'it'},
             'loops': {0: '''invariant
-                    key_model_ok(),
+                    key_model_ok(), parse_errors@ == sp_parse_errors(semantic_model),
                     context.file_id == old(context).file_id && context.db == old(context).db && context.config == old(context).config,
                     old(context).diagnostics@.len() <= context.diagnostics@.len() <= old(context).diagnostics@.len() + it.index@,
                     forall|i: int| 0 <= i < it.index@
@@ -171,6 +173,10 @@ UNIT = {
         {'name': 'doc-errors-dropped', 'item': 'SyntaxErrorChecker::check::parse_errors',
          'pattern': r'context\.add_diagnostic\(code, parse_error\.range, parse_error\.message, None\);',
          'repl': 'if matches!(parse_error.kind, LuaParseErrorKind::SyntaxError) { context.add_diagnostic(code, parse_error.range, parse_error.message, None); }',
+         'expect': r'C21\.syntax-errors-all-reported'},
+        {'name': 'checker-skipped-when-syntax-error-disabled', 'item': 'SyntaxErrorChecker::check::parse_errors',
+         'pattern': r'if let Some\(parse_errors\) = semantic_model\.get_file_parse_error\(\) \{',
+         'repl': 'if !context.is_checker_enable_by_code(&DiagnosticCode::SyntaxError) { return; }\n        if let Some(parse_errors) = semantic_model.get_file_parse_error() {',
          'expect': r'C21\.syntax-errors-all-reported'},
         {'name': 'diagnose-library', 'item': 'LuaDiagnostic::diagnose_file',
          'pattern': r'&& !module_info\.is_main\(\)', 'repl': '&& module_info.is_main()',
